@@ -674,19 +674,34 @@ class Proxy:
     def argmin(self, a, axis=None):
         return _np.argmin(_obj(a), axis=axis)
 
+    def _reduce2(self, fn, a, axis):
+        a = _obj(a)
+        if not has_sym(a):
+            return (_np.max if fn is core.sym_max else _np.min)(_conc(a), axis=axis)
+        if axis is None:
+            flat = list(a.ravel())
+            r = flat[0]
+            for e in flat[1:]:
+                r = fn(r, e)          # If-terms (simplified when the context decides), no forking
+            return r
+        moved = _np.moveaxis(a, axis, -1)
+        out = _np.empty(moved.shape[:-1], dtype=object)
+        for idx in _np.ndindex(*moved.shape[:-1]):
+            out[idx] = self._reduce2(fn, moved[idx], None)
+        return out
+
     def max(self, a, axis=None):
-        return _unwrap0(_np.max(_obj(a), axis=axis))
+        return _unwrap0(self._reduce2(core.sym_max, a, axis))
 
     amax = max
 
     def min(self, a, axis=None):
-        return _unwrap0(_np.min(_obj(a), axis=axis))
+        return _unwrap0(self._reduce2(core.sym_min, a, axis))
 
     amin = min
 
     def ptp(self, a, axis=None):
-        a = _obj(a)
-        return _unwrap0(_np.max(a, axis=axis) - _np.min(a, axis=axis))
+        return self.max(a, axis=axis) - self.min(a, axis=axis)
 
     def sort(self, a, axis=-1):
         return _np.sort(_obj(a), axis=axis)
